@@ -322,7 +322,7 @@ theorem C01_text_indirect_noOffset {c k : Nat} (hc : r.ind = some c) (hk : k < 4
     simpa using comma_not_mem_reg hk (pre := ['-', '-']) (post := []) (by simp) (by simp)
   have hb : ∀ right : Str, Bracketed
       { kind := .extIndirect, text := '[' :: ((',' :: right) ++ [']']), value := .leftRight [] right .extended,
-        left := .text [], right := some right } := fun _ => ⟨rfl, rfl, rfl⟩
+        left := .text [], right := some right } := fun _ => ⟨rfl, rfl, rfl, rfl⟩
   refine ⟨textEncodes_of_region hr (frontEnd_ind_noOffset hr _ c0) (.indZero (hb _) hc rfl hk rfl),
     textEncodes_of_region hr (frontEnd_ind_noOffset hr _ c2) (.indInc2 (hb _) hc rfl hk rfl),
     textEncodes_of_region hr (frontEnd_ind_noOffset hr _ c4) (.indDec2 (hb _) hc rfl hk rfl), ?_, ?_⟩
@@ -348,7 +348,7 @@ theorem C01_text_accumulator {c k a : Nat} {l : Str} (hc : r.ind = some c) (hla 
   exact ⟨textEncodes_of_region hr (frontEnd_indexed_keep hr.flags hh hs hcl c0 (Or.inr habd))
       (.acc rfl hc hla rfl hk rfl),
     textEncodes_of_region hr (frontEnd_bracket_keep hr.flags hh hs hcl c0 (Or.inr habd))
-      (.indAcc ⟨rfl, rfl, rfl⟩ hc hla rfl hk rfl)⟩
+      (.indAcc ⟨rfl, rfl, rfl, rfl⟩ hc hla rfl hk rfl)⟩
 
 /-! ## 6. constant offsets
 
@@ -444,26 +444,26 @@ theorem C01_text_ind_off8 {c k : Nat} (hc : r.ind = some c) (hk : k < 4) {x : St
     (hx : IsDecLit x) (h1 : 1 ≤ parseBase 10 x) (h2 : parseBase 10 x ≤ 127) :
     TextEncodes r ('[' :: ((x ++ ',' :: regName k) ++ [']'])) (.idx (.off k (parseBase 10 x) true 8)) :=
   textEncodes_of_region hr (frontEnd_ind_offset hr hx (by omega) hk)
-    (.indOff8pos ⟨rfl, rfl, rfl⟩ hc rfl h1 h2 hk rfl)
+    (.indOff8pos ⟨rfl, rfl, rfl, rfl⟩ hc rfl h1 h2 hk rfl)
 
 /-- `[-n,R]`, 1 ≤ n ≤ 128: 8-bit, every row (`LDA [-5,X]` is `A6 98 FB`, size 3) -/
 theorem C01_text_ind_off8_neg {c k : Nat} (hc : r.ind = some c) (hk : k < 4) {x : Str}
     (hx : IsDecLit x) (h1 : 1 ≤ parseBase 10 x) (h2 : parseBase 10 x ≤ 128) :
     TextEncodes r ('[' :: ((('-' :: x) ++ ',' :: regName k) ++ [']'])) (.idx (.off k (-(parseBase 10 x : Int)) true 8)) :=
   textEncodes_of_region hr (frontEnd_ind_neg_offset hr hx (by omega) hk)
-    (.indOff8neg ⟨rfl, rfl, rfl⟩ hc rfl h1 h2 hk rfl)
+    (.indOff8neg ⟨rfl, rfl, rfl, rfl⟩ hc rfl h1 h2 hk rfl)
 
 /-- `[n,R]`, 128 ≤ n ≤ 65535: 16-bit, every row -/
 theorem C01_text_ind_off16 {c k : Nat} (hc : r.ind = some c) (hk : k < 4) {x : Str} (hx : IsDecLit x)
     (h1 : 128 ≤ parseBase 10 x) (h2 : parseBase 10 x < 65536) :
     TextEncodes r ('[' :: ((x ++ ',' :: regName k) ++ [']'])) (.idx (.off k (sext (parseBase 10 x) 16) true 16)) :=
-  textEncodes_of_region hr (frontEnd_ind_offset hr hx h2 hk) (.indOff16pos ⟨rfl, rfl, rfl⟩ hc rfl h1 h2 hk rfl)
+  textEncodes_of_region hr (frontEnd_ind_offset hr hx h2 hk) (.indOff16pos ⟨rfl, rfl, rfl, rfl⟩ hc rfl h1 h2 hk rfl)
 
 /-- `[-n,R]`, 129 ≤ n ≤ 32768: 16-bit, every row -/
 theorem C01_text_ind_off16_neg {c k : Nat} (hc : r.ind = some c) (hk : k < 4) {x : Str} (hx : IsDecLit x)
     (h1 : 129 ≤ parseBase 10 x) (h2 : parseBase 10 x ≤ 32768) :
     TextEncodes r ('[' :: ((('-' :: x) ++ ',' :: regName k) ++ [']'])) (.idx (.off k (-(parseBase 10 x : Int)) true 16)) :=
-  textEncodes_of_region hr (frontEnd_ind_neg_offset hr hx h2 hk) (.indOff16neg ⟨rfl, rfl, rfl⟩ hc rfl h1 h2 hk rfl)
+  textEncodes_of_region hr (frontEnd_ind_neg_offset hr hx h2 hk) (.indOff16neg ⟨rfl, rfl, rfl, rfl⟩ hc rfl h1 h2 hk rfl)
 
 /-- `0,R` (any spelling of zero): assembled exactly like `,R` -/
 theorem C01_text_off0 {c k : Nat} (hc : r.ind = some c) (hk : k < 4) {x : Str} (hx : IsDecLit x)
@@ -481,7 +481,7 @@ theorem C01_text_ind_off0 {c k : Nat} (hc : r.ind = some c) (hk : k < 4) {x : St
   have hfe := frontEnd_ind_offset hr hx (by omega) hk
   rw [h0] at hfe
   refine textEncodes_of hfe (encodes_congr (translateOperand_zero_val _ r (Or.inr rfl) rfl rfl (regName_plain k hk).noPcr) ?_)
-  exact C01_partial hr.mem hr.notPseudo (.indZero ⟨rfl, rfl, rfl⟩ hc rfl hk rfl)
+  exact C01_partial hr.mem hr.notPseudo (.indZero ⟨rfl, rfl, rfl, rfl⟩ hc rfl hk rfl)
 
 end families
 
@@ -584,7 +584,7 @@ theorem C01_text_ind_pcr8 {c : Nat} (hc : r.ind = some c) (h16 : r.is16Bit = fal
     (h2 : parseBase 10 x ≤ 127) :
     TextEncodes r ('[' :: ((x ++ ',' :: str "PCR") ++ [']'])) (.idx (.pcr (parseBase 10 x) true 8)) := by
   have := textEncodes_of_region hr (frontEnd_ind_pcr hr hx (by omega))
-    (.indPcr8 ⟨rfl, rfl, rfl⟩ hc rfl rfl (mode_ne_extended h16 (by omega)) (by simp [signedVal] <;> omega)
+    (.indPcr8 ⟨rfl, rfl, rfl, rfl⟩ hc rfl rfl (mode_ne_extended h16 (by omega)) (by simp [signedVal] <;> omega)
       (by simp [signedVal] <;> omega))
   simpa [signedVal] using this
 
@@ -598,14 +598,14 @@ theorem C01_text_ind_pcr16 {c : Nat} (hc : r.ind = some c) {x : Str} (hx : IsDec
     · left; simp [h]
     · right; simp [signedVal]; omega
   have := textEncodes_of_region hr (frontEnd_ind_pcr hr hx h2)
-    (.indPcr16 ⟨rfl, rfl, rfl⟩ hc rfl rfl hw (by simp [signedVal] <;> omega) (by simp [signedVal] <;> omega))
+    (.indPcr16 ⟨rfl, rfl, rfl, rfl⟩ hc rfl rfl hw (by simp [signedVal] <;> omega) (by simp [signedVal] <;> omega))
   rwa [twos16_pos h2] at this
 
 /-- `[-n,PCR]`, 8-bit form -/
 theorem C01_text_ind_pcr8_neg {c : Nat} (hc : r.ind = some c) {x : Str} (hx : IsDecLit x) (h2 : parseBase 10 x ≤ 128) :
     TextEncodes r ('[' :: ((('-' :: x) ++ ',' :: str "PCR") ++ [']'])) (.idx (.pcr (-(parseBase 10 x : Int)) true 8)) := by
   have := textEncodes_of_region hr (frontEnd_ind_neg_pcr hr hx (by omega))
-    (.indPcr8 ⟨rfl, rfl, rfl⟩ hc rfl rfl (by decide) (by simp [signedVal] <;> omega) (by simp [signedVal] <;> omega))
+    (.indPcr8 ⟨rfl, rfl, rfl, rfl⟩ hc rfl rfl (by decide) (by simp [signedVal] <;> omega) (by simp [signedVal] <;> omega))
   simpa [signedVal] using this
 
 /-- `[-n,PCR]`, 16-bit form -/
@@ -613,7 +613,7 @@ theorem C01_text_ind_pcr16_neg {c : Nat} (hc : r.ind = some c) {x : Str} (hx : I
     (h1 : 129 ≤ parseBase 10 x) (h2 : parseBase 10 x ≤ 32768) :
     TextEncodes r ('[' :: ((('-' :: x) ++ ',' :: str "PCR") ++ [']'])) (.idx (.pcr (-(parseBase 10 x : Int)) true 16)) := by
   have := textEncodes_of_region hr (frontEnd_ind_neg_pcr hr hx h2)
-    (.indPcr16 ⟨rfl, rfl, rfl⟩ hc rfl rfl (Or.inr (by simp [signedVal]; omega)) (by simp [signedVal] <;> omega)
+    (.indPcr16 ⟨rfl, rfl, rfl, rfl⟩ hc rfl rfl (Or.inr (by simp [signedVal]; omega)) (by simp [signedVal] <;> omega)
       (by simp [signedVal] <;> omega))
   rwa [twos16_neg (by omega) h2, sext16_neg (by omega) h2] at this
 
